@@ -28,6 +28,8 @@ pub struct Swarm {
     pub second_folder: bool,
     /// modules vanish from / come back to the disk behind the server's back
     pub external: bool,
+    /// 0: mixture; 1: each module on one very long line; 2: one token per line
+    pub shape: u8,
     /// plain layout (single spaces, one statement per line, no comments): identifiers of
     /// different modules then often sit at the very same (line, column)
     pub aligned: bool,
@@ -45,11 +47,12 @@ pub fn swarm(rng: &mut Rng) -> Swarm {
         out_of_range: rng.below(3) as u8,
         multibyte: rng.below(3) as u8,
         crlf: (0..8).map(|_| rng.chance(1, 3)).collect(),
-        max_events: rng.range(5, 60),
+        max_events: if rng.chance(1, 20) { rng.range(100, 300) } else { rng.range(5, 60) },
         rename_loops: rng.chance(1, 2),
         second_folder: rng.chance(1, 4),
         external: rng.chance(1, 3),
         aligned: rng.chance(1, 3),
+        shape: *rng.pick(&[0, 0, 0, 0, 0, 0, 1, 2]),
     }
 }
 
@@ -397,6 +400,12 @@ impl Builder<'_> {
         }
         if self.sched.chance(self.sw.idle_pct, 100) {
             self.events.push(Ev::Idle);
+            if self.sched.chance(1, 30) {
+                // a long quiet period: the timer fires again and again
+                for _ in 0..self.sched.range(3, 40) {
+                    self.events.push(Ev::Idle);
+                }
+            }
         }
         if self.sched.chance(self.sw.req_pct, 100) {
             self.random_request();
@@ -527,6 +536,7 @@ pub fn plan(seed: u64, prop: &str, run: u64, sem: Sem) -> Plan {
         multibyte: if sw.aligned { 0 } else { sw.multibyte },
         crlf: sw.crlf.clone(),
         comments: !sw.aligned,
+        shape: sw.shape,
     };
     let l0 = layout(&mut wl, &sw);
     let base_files = files_of(&gen::render(&programs[0], &l0));
@@ -767,6 +777,7 @@ pub fn plan(seed: u64, prop: &str, run: u64, sem: Sem) -> Plan {
             events,
             sem: sem_targets,
             folder_b: sw.second_folder || shared_folder,
+            version_base: *env.pick(&[1, 1, 1, 0, 100_000, i32::MAX - 40, -5]),
         },
         programs,
         targets,
